@@ -197,7 +197,7 @@ class SLock:
         return self.ctl.cur() or ("ext", _thread.get_ident())
 
     def free_for(self, who) -> bool:
-        return self.owner is None or (self.reentrant and self.owner is who)
+        return self.owner is None or (self.reentrant and self.owner == who)
 
     def acquire(self, blocking=True, timeout=-1):
         me = self._me()
@@ -221,7 +221,7 @@ class SLock:
         me = self._me()
         if self.ctl.scheduling(self.group):
             self.ctl.park("release", self)
-        if self.owner is not me:
+        if self.owner != me:
             if self.ctl.aborting:
                 return
             raise RuntimeError("cannot release un-acquired lock")
@@ -317,7 +317,8 @@ def factory_reentrant(factory) -> bool:
 # ------------------------------------------------------------------------------------------
 # loaded copies of term_image.utils
 
-WATCHED = {"_tty_lock": "tty", "_cell_size_lock": "cell"}
+# module globals whose READ is a scheduling point, and the group that switches it on
+WATCHED = {"_tty_lock": "tty", "_cell_size_lock": "cell", "_swap_win_size": "flag", "_queries_enabled": "flag"}
 
 
 class HookedGlobals(dict):
@@ -329,7 +330,7 @@ class HookedGlobals(dict):
         if k in WATCHED:
             ctl = self.ctl
             if ctl is not None and ctl.scheduling(WATCHED[k]):
-                ctl.park("read", k)
+                ctl.park("read-flag" if WATCHED[k] == "flag" else "read", k)
         return dict.__getitem__(self, k)
 
 
